@@ -45,3 +45,27 @@ def refused(make):
         return done()
     check(False, "out-of-range parameter was encoded into a PDU: " + pdu.hex())
     return done()
+
+
+class _Rec:
+    pass
+
+
+def client_tie(method_name, kwargs, expected):
+    """the bytes a UDSClient service method hands to the request path equal the ISO reference encoding"""
+    from gallia.services.uds.core.client import UDSClient
+
+    client = UDSClient(_Rec(), timeout=1.0)
+    seen = []
+
+    async def record(request, config=None):
+        seen.append(request)
+        return None
+
+    client.request = record
+    from engine.hlib import drive
+
+    drive(getattr(client, method_name)(**kwargs))
+    check(len(seen) == 1, "client method did not issue exactly one request")
+    check(seen[0].pdu == expected, "bytes handed to the transport by UDSClient." + method_name + "() differ from the ISO 14229-1 layout")
+    return done()
